@@ -303,3 +303,34 @@ def load_known():
 
 def sha(s):
     return hashlib.sha1(s.encode("utf8", "replace")).hexdigest()[:12]
+
+
+# ----------------------------------------------------------------------------- coqchk (thorough tier)
+def coqchk(props_files, timeout=3000):
+    """Independent re-check of the compiled property files and everything they depend on.
+    Cached on the content hash of the .vo files of the project. Returns dict."""
+    mods = ["L4." + f[:-2].replace("/", ".") for f in props_files]
+    h = hashlib.sha1()
+    for root, dirs, fs in os.walk(COQ):
+        dirs[:] = sorted(d for d in dirs if d != "cases")
+        for f in sorted(fs):
+            if f.endswith(".vo"):
+                h.update(f.encode())
+                h.update(open(os.path.join(root, f), "rb").read())
+    key = hashlib.sha1((h.hexdigest() + " ".join(mods)).encode()).hexdigest()[:16]
+    cdir = os.path.join(BUILD, "coqchk")
+    os.makedirs(cdir, exist_ok=True)
+    cp = os.path.join(cdir, key + ".json")
+    if os.path.exists(cp):
+        r = json.load(open(cp))
+        r["cached"] = True
+        return r
+    cmd = ["coqchk", "-silent", "-o", "-Q", ".", "L4"] + mods
+    rc, out, dt = run(cmd, cwd=COQ, timeout=timeout)
+    summary = out[out.find("CONTEXT SUMMARY"):] if "CONTEXT SUMMARY" in out else out[-1500:]
+    m = re.search(r"\* Axioms:\s*(.*?)\n\s*\n", summary, re.S)
+    r = {"ok": rc == 0, "cmd": " ".join(cmd), "secs": round(dt, 1), "axioms": (m.group(1).strip() if m else "?"),
+         "summary": summary[-1500:], "cached": False}
+    if rc == 0:
+        json.dump(r, open(cp, "w"))
+    return r
